@@ -58,6 +58,18 @@ def gen_case(rng, tier, idx):
     host = rng.random() < 0.3
     g = G.gen_spec(rng, tier, max_nodes=16 if tier == "quick" else 36, parts=rng.randint(1, 6), fault_rate=0.2,
                    allow_seeded=False, host_ds=host)
+    if rng.random() < 0.4:
+        # several mutually independent consumers of one spec (or of one ordinary component) that all fail: what is
+        # recorded for them, and against the spec, must not depend on which of them happens to run first
+        nodes = g["nodes"]
+        hubs = [i for i, nd in enumerate(nodes) if nd["kind"] in ("point", "datasource", "component")]
+        if hubs:
+            h = rng.choice(hubs)
+            for _ in range(rng.randint(2, 4)):
+                nodes.append({"kind": rng.choice(["combiner", "plain", "condition", "parser"]), "part": nodes[h]["part"], "written": [h], "opt": [],
+                              "outcome": rng.choice(["boom", "valerr", "keyerr", "cpe"]), "enabled": True, "seeded": False,
+                              "continue_on_error": True, "elem_outcomes": [rng.choice(["boom", "cpe", "value"]) for _ in range(4)]})
+            g["junk"] = g["junk"] + [0] * (len(nodes) - len(g["junk"]))
     return {"graph": g, "host": host, "store_skips": rng.random() < 0.4, "ext_seed": rng.getrandbits(32)}
 
 
